@@ -3,11 +3,13 @@
 use crate::box_iter::Results;
 use alloc::vec::Vec;
 
-enum Fold<'a, X, Y, E> {
+enum Fold<'a, X, Y, Z, E> {
     /// things to be processed
     Input(Y),
     /// things to be output, then to be input
     Output(X, Results<'a, Y, E>),
+    /// final output
+    Final(Z),
 }
 
 pub(crate) fn fold<'a, T: 'a, TC: Clone + 'a, U: 'a, UC: 'a, E: 'a>(
@@ -18,38 +20,93 @@ pub(crate) fn fold<'a, T: 'a, TC: Clone + 'a, U: 'a, UC: 'a, E: 'a>(
     inner: impl Fn(TC, &U) -> Option<UC> + 'a,
     outer: impl Fn(U) -> Option<UC> + 'a,
 ) -> impl Iterator<Item = Result<UC, E>> + 'a {
-    let mut stack = Vec::from([(xs, Fold::<TC, U, E>::Input(init))]);
-    core::iter::from_fn(move || loop {
-        let (mut xs, fold) = stack.pop()?;
-        match fold {
-            Fold::Output(x, mut ys) => match ys.next() {
-                None => continue,
-                Some(y) => {
-                    // do not grow the stack if the output is empty
-                    if ys.size_hint() != (0, Some(0)) {
-                        stack.push((xs.clone(), Fold::Output(x.clone(), ys)));
-                    }
-                    match y {
-                        Ok(y) => {
-                            let inner = inner(x, &y);
-                            stack.push((xs, Fold::Input(y)));
-                            if let Some(inner) = inner {
-                                return Some(Ok(inner));
-                            }
+    let stack = Vec::from([(xs, Fold::<TC, U, UC, E>::Input(init))]);
+    FoldIter {
+        stack,
+        f,
+        tc,
+        inner,
+        outer,
+    }
+}
+
+struct FoldIter<'a, XS, TC, U, UC, E, F, FTC, FI, FO> {
+    stack: Vec<(XS, Fold<'a, TC, U, UC, E>)>,
+    f: F,
+    tc: FTC,
+    inner: FI,
+    outer: FO,
+}
+
+impl<'a, T, TC: Clone, U, UC, E, XS, F, FTC, FI, FO> Iterator
+    for FoldIter<'a, XS, TC, U, UC, E, F, FTC, FI, FO>
+where
+    XS: Iterator<Item = Result<T, E>> + Clone,
+    F: Fn(T, U) -> Results<'a, U, E>,
+    FTC: Fn(&T) -> TC,
+    FI: Fn(TC, &U) -> Option<UC>,
+    FO: Fn(U) -> Option<UC>,
+{
+    type Item = Result<UC, E>;
+
+    fn next(&mut self) -> Option<Self::Item> {
+        loop {
+            let (mut xs, fold) = self.stack.pop()?;
+            match fold {
+                Fold::Output(x, mut ys) => match ys.next() {
+                    None => continue,
+                    Some(y) => {
+                        // do not grow the stack if the output is empty
+                        if ys.size_hint() != (0, Some(0)) {
+                            self.stack.push((xs.clone(), Fold::Output(x.clone(), ys)));
                         }
-                        Err(e) => return Some(Err(e)),
+                        match y {
+                            Ok(y) => {
+                                let inner = (self.inner)(x, &y);
+                                // if we know without evaluating anything that there is no more input,
+                                // do not keep the state around, such that
+                                // `size_hint` can report that this iterator is exhausted
+                                if xs.size_hint() == (0, Some(0)) {
+                                    if let Some(outer) = (self.outer)(y) {
+                                        self.stack.push((xs, Fold::Final(outer)));
+                                    }
+                                } else {
+                                    self.stack.push((xs, Fold::Input(y)));
+                                }
+                                if let Some(inner) = inner {
+                                    return Some(Ok(inner));
+                                }
+                            }
+                            Err(e) => return Some(Err(e)),
+                        }
                     }
-                }
-            },
-            Fold::Input(y) => match xs.next() {
-                None => {
-                    if let Some(outer) = outer(y) {
-                        return Some(Ok(outer));
+                },
+                Fold::Final(z) => return Some(Ok(z)),
+                Fold::Input(y) => match xs.next() {
+                    None => {
+                        if let Some(outer) = (self.outer)(y) {
+                            return Some(Ok(outer));
+                        }
                     }
-                }
-                Some(Ok(x)) => stack.push((xs, Fold::Output(tc(&x), f(x, y)))),
-                Some(Err(e)) => return Some(Err(e)),
-            },
+                    Some(Ok(x)) => {
+                        let fold = Fold::Output((self.tc)(&x), (self.f)(x, y));
+                        self.stack.push((xs, fold))
+                    }
+                    Some(Err(e)) => return Some(Err(e)),
+                },
+            }
         }
-    })
+    }
+
+    /// Report exhaustion once nothing is left to process.
+    ///
+    /// This allows consumers (such as the handler of tail calls) to
+    /// drop this iterator once it has yielded its last output.
+    fn size_hint(&self) -> (usize, Option<usize>) {
+        if self.stack.is_empty() {
+            (0, Some(0))
+        } else {
+            (0, None)
+        }
+    }
 }
